@@ -150,7 +150,10 @@ CHECKS["C07"] = dict(
          "(RatePath); at the account level (Broker.tla, epsilon 1/1000) rebalances that trade a sliver of a contract: the trades an "
          "entry lists, applied to its pre-trade NLV, give its post-trade NLV. The frame accessors are read after every executed "
          "decision as well as at the end (rows = entries), per-row and cumulative costs, entries addressed by position and by stamp, "
-         "the burn-in option, and a deepcopy / pickle copy of the record must report the same costs; allow-listed regression tests "
+         "the burn-in option, and a deepcopy / pickle copy of the record must report the same costs; TrackRecord.tla models the "
+         "container on its own (every path of checkpoints with stamps in any order, duplicated stamps, entries with and without "
+         "trades: OneEntryPerCheckpoint, UniqueStamps, BurnIsLeadingIdle, DuplicateRefused, AppendOnly) and every path is replayed "
+         "on a real TrackRecord; allow-listed regression tests "
          "of the repository run under a recording plugin and TLC validates every recorded episode (EnvTrace.tla).",
     design="5 C07", technique="TLA+ spec (EnvFull.tla over LedgerOps/TransmitterOps) model-checked with TLC; every behaviour "
                               "replayed into the real TradingEnv", note=FULL_NOTE)
